@@ -623,6 +623,12 @@ func main() {
 			} else {
 				w.Put(runFree(c))
 			}
+		case "seq":
+			var c SeqCase
+			if err := json.Unmarshal(raw, &c); err != nil {
+				hx.Fatal("case: %v", err)
+			}
+			w.Put(runSeq(c))
 		case "fx":
 			var c SlotCase
 			if err := json.Unmarshal(raw, &c); err != nil {
